@@ -100,7 +100,8 @@ class _Gen:
         self.lines: T.Dict[str, T.List[str]] = {}
         self.targets: T.List[dict] = []
         self.tests: T.List[dict] = []
-        self.used_names: T.Set[T.Tuple[str, str]] = set()   # (project, name) -- meson wants ids unique per dir, we keep it simple
+        self.used_names: T.Set[T.Tuple[str, str, str]] = set()   # (project, dir, name): the same name may recur in another dir
+        self.cur = ''
         self.nvar = 0
         self.nfile = 0
         self.layout_sensitive = False
@@ -131,12 +132,12 @@ class _Gen:
                         n += str(rng.randint(0, 9))
             else:
                 n = rng.choice(pool)
-            if (project, n) not in self.used_names:
-                self.used_names.add((project, n))
+            if (project, self.cur, n) not in self.used_names:
+                self.used_names.add((project, self.cur, n))
                 return n
         self.nvar += 1
         n = f'n{self.nvar}'
-        self.used_names.add((project, n))
+        self.used_names.add((project, self.cur, n))
         return n
 
     def src(self, mdir: str, stem: str = None, ext='.c', body=None) -> str:
@@ -163,6 +164,7 @@ class _Gen:
     # ---- target makers; each returns the target dict
     def mk_lib(self, mdir, project, kind=None, name=None):
         rng = self.rng
+        self.cur = mdir
         kind = kind or rng.choice(['static_library', 'shared_library', 'both_libraries', 'library', 'shared_module'])
         name = name or self.name(project)
         v = self.var()
@@ -232,6 +234,7 @@ class _Gen:
 
     def mk_exe(self, mdir, project, name=None, allow_extra=True):
         rng = self.rng
+        self.cur = mdir
         name = name or self.name(project)
         v = self.var()
         srcs = [self.src(mdir, stem='main', body='int main(void) { return 0; }\n')]
@@ -282,6 +285,7 @@ class _Gen:
 
     def mk_ct(self, mdir, project, outputs=None, name=None, bbd=None):
         rng = self.rng
+        self.cur = mdir
         v = self.var()
         name = name or self.name(project)
         if outputs is None:
@@ -381,6 +385,7 @@ class _Gen:
 
     def mk_alias(self, mdir, project):
         rng = self.rng
+        self.cur = mdir
         cands = [t for t in self.targets if t['project'] == project and t['kind'] in
                  ('custom_target', 'executable', 'shared_library', 'static_library')]
         if not cands:
